@@ -317,6 +317,18 @@ pub fn run(ctx: &Ctx) -> Outcome {
             items.push((p, set));
         }
     }
+    // (e) alternations whose branches share a leading element (finding FY shows where the VM
+    // compiles the alternation itself: a word boundary in a branch)
+    let n_cpa;
+    {
+        let fam: Vec<Node> = gen::common_prefix_alt_family().into_iter().filter(|p| !p.any(&|n| matches!(n, Look(..) | Backref(_)))).collect();
+        n_cpa = fam.len();
+        text_sets.push(gen::texts(&["a", "b", "-"], 4));
+        let set = text_sets.len() - 1;
+        for p in fam {
+            items.push((p, set));
+        }
+    }
     let acc = par_run(&items, true, Some(20_000_000), |_, (p, set), acc| {
         let texts = &text_sets[*set];
         let s = p.print();
@@ -346,7 +358,7 @@ pub fn run(ctx: &Ctx) -> Outcome {
         let names: Vec<String> = rre.capture_names().flatten().map(|n| n.to_string()).collect();
         let f1 = p.has_f1() && rt.is_vm();
         let (fl, fx) = (class_fl(p), class_fx(p));
-        let known_id = if f1 { Some("F1") } else if fl { Some("FL") } else if fx { Some("FX") } else { None }.filter(|id| ctx.known.listed("C04", id));
+        let known_id = if f1 { Some("F1") } else if fl { Some("FL") } else if fx { Some("FX") } else if p.has_common_prefix_alt() && rt.is_vm() { Some("FY") } else { None }.filter(|id| ctx.known.listed("C04", id));
         let mut any_match = false;
         for t in texts {
             acc.evals += 1;
@@ -386,7 +398,7 @@ pub fn run(ctx: &Ctx) -> Outcome {
     }
     let mut out = Outcome::new(acc);
     out.distinct_nontrivial = out.acc.distinct;
-    out.rule = format!("{} over literals a A b é space -, . [ab] [^a] [a ] [a\\-b] [+\\-.] [\\]a\\^] [^\\s\\d] [[:alpha:]&&[^b]] [\\x61-b] \\w \\s \\d, ^ $ (?m:^) (?m:$) \\b \\B \\< \\>, groups, named groups, scoped and inline flags i s m x U -i, \\A \\z, greedy/lazy quantifiers; a pattern either crate rejects is counted and skipped; every remaining pattern x all {} texts over {{a,A,b,space,\\n,é,-}} up to length 3 x is_match, find, captures (+names), find_iter, captures_iter, split, splitn(0..3), replacen(0..2)/replace/replace_all with 7 templates, NoExpand and a closure. Plus {} patterns of <= 3 nodes over k s K KELVIN-SIGN LONG-S [ks] \\w \\b \\B \\> (?i) (with and without a leading (?i)) x all texts over those letters up to length 3, and the common-syntax members of {} counted-repeat patterns with bounds 10-1100 x texts around the bound, and {} seeded patterns with 3-8 groups in a counted loop next to \\b / \\B with a failing tail and a fallback alternative, and {} patterns 'two literals, a greedy loop over one literal, a continuation, a word boundary' x all texts over a b - up to length 4. Non-trivial: a pattern with a word-boundary assertion (VM route) or a flag group that matched at least one text.", describe, texts.len(), n_fold, n_big, n_wide, n_loop);
+    out.rule = format!("{} over literals a A b é space -, . [ab] [^a] [a ] [a\\-b] [+\\-.] [\\]a\\^] [^\\s\\d] [[:alpha:]&&[^b]] [\\x61-b] \\w \\s \\d, ^ $ (?m:^) (?m:$) \\b \\B \\< \\>, groups, named groups, scoped and inline flags i s m x U -i, \\A \\z, greedy/lazy quantifiers; a pattern either crate rejects is counted and skipped; every remaining pattern x all {} texts over {{a,A,b,space,\\n,é,-}} up to length 3 x is_match, find, captures (+names), find_iter, captures_iter, split, splitn(0..3), replacen(0..2)/replace/replace_all with 7 templates, NoExpand and a closure. Plus {} patterns of <= 3 nodes over k s K KELVIN-SIGN LONG-S [ks] \\w \\b \\B \\> (?i) (with and without a leading (?i)) x all texts over those letters up to length 3, and the common-syntax members of {} counted-repeat patterns with bounds 10-1100 x texts around the bound, and {} seeded patterns with 3-8 groups in a counted loop next to \\b / \\B with a failing tail and a fallback alternative, and {} patterns 'two literals, a greedy loop over one literal, a continuation, a word boundary' x all texts over a b - up to length 4, and {} alternations whose branches start with the same element (family of finding FY) x the same texts. Non-trivial: a pattern with a word-boundary assertion (VM route) or a flag group that matched at least one text.", describe, texts.len(), n_fold, n_big, n_wide, n_loop, n_cpa);
     out.assumptions = vec!["the regex crate is the oracle; both crates share regex-automata, so a fault inside it is invisible here".into()];
     let (vm, wr) = (out.acc.get("route:vm"), out.acc.get("route:wrapped"));
     out.extra = json!({"routes": {"vm": vm, "wrapped": wr}});
